@@ -420,8 +420,8 @@ def confirm_kani_failure(pid, srepo, h, rec):
 
 def replay(pid, path):
     payload = json.load(open(path))
-    if payload.get("kind") in ("native_derive_search", "native_builder_search"):
-        import verus_engine
+    import verus_engine
+    if payload.get("kind") in verus_engine.NATIVE_SEARCHES:
         status, txt = verus_engine.NATIVE_SEARCHES[payload["kind"]]["run"]()
         print(txt[-3000:])
         if status == "disagree":
